@@ -41,6 +41,7 @@ def run(ctx):
             "extraction: ExtrOcamlBasic only; OCaml driver ocaml/C13/main.ml + ocaml/C07/a07lib.ml + ocaml/common/conv.ml",
             "harness harness/cmd/hC13 + harness/internal/a07ammo: real providers and library entry points under recover, bounded waits and (hostile sizes) a subprocess with ulimit -v",
             "oracles answered by the real libraries: net/url, net/http, encoding/json, json-iterator; yaml.v2 + mapstructure (kind cfg) are fuzzed only, not modelled",
+            "kind clicfg: the real CLI config reader (verif hook cli.VerifReadConfig) in a child process of hC13 per case, outcome classified from exit status + the reader's Fatal text / panic text / a 20 s wait; config.DecodeAndValidate is an oracle (clidec); yaml.v2 / encoding/json rendering of the generated tree and viper's reading of it are trusted",
         ],
         assumptions=["a 5 s wait without a result means the call hangs", "an allocation of 4 GiB or more fails under ulimit -v 3000000"],
     )
